@@ -2,6 +2,7 @@ import EqsigVerif.Model.Stockwell
 import EqsigVerif.Lemmas.Cplx
 import EqsigVerif.Lemmas.CplxC
 import EqsigVerif.Lemmas.Stockwell
+import EqsigVerif.Lemmas.Inverse
 /-!
 # C15 — Stockwell transform: definition, Fourier marginal (and inverse)
 
@@ -110,6 +111,44 @@ theorem definition_code_shaped (x : List ℂ) (h : 2 ≤ x.length)
   push_cast
   ring
 
+/-- **C15.b** (stretch, proved) textbook form: for a REAL record the code's array is the complex conjugate of the
+discrete S-transform with a Gaussian window of width `1/f`,
+`S[r][j] = conj( (1/N) Σ_{m<N} X[(m+k) mod N] · e^{−2π² m̃²/k²} · e^{2πi mj/N} )`, `k = N/2 − r`
+(re-indexing `m ↦ −m mod N`, Hermitian symmetry of `X`, evenness of the window). -/
+theorem definition_textbook (x : List ℂ) (h : 2 ≤ x.length)
+    (hx : ∀ j, starRingEnd ℂ (x.getD j 0) = x.getD j 0) :
+    ∃ S, transform twC Real.exp Real.pi x = .ok S ∧
+      ∀ r, r < x.length / 2 → ∀ j, j < 2 * (x.length / 2) →
+        (S.getD r []).getD j 0 = starRingEnd ℂ
+          ((∑ m ∈ range (2 * (x.length / 2)),
+            (dft twC x (2 * (x.length / 2))).getD ((m + (x.length / 2 - r)) % (2 * (x.length / 2))) 0 *
+              (Real.exp (-(2 * Real.pi ^ 2 * signedIdx (x.length / 2) m ^ 2
+                / ((x.length / 2 - r : ℕ) : ℝ) ^ 2)) : ℝ) *
+              cexp (2 * Real.pi * I * m * j / (2 * (x.length / 2) : ℕ)))
+            / (2 * (x.length / 2) : ℕ)) := by
+  refine ⟨_, transform_eq twC Real.exp Real.pi x h, ?_⟩
+  intro r hr j hj
+  have hnd : 1 ≤ x.length / 2 := by omega
+  set P := x.length / 2 with hPdef
+  set N := 2 * P with hNdef
+  set k := P - r with hkdef
+  have hk0 : 1 ≤ k := by omega
+  have hkP : k ≤ P := by omega
+  rw [getD_map_range _ _ _ hr, idftC_getD _ _ _ hj, map_div₀, map_natCast, map_sum]
+  congr 1
+  rw [sum_range_negMod N]
+  apply Finset.sum_congr rfl
+  intro m hm
+  have hm' : m < N := Finset.mem_range.mp hm
+  have hs : negMod N m < N := negMod_lt N m (by omega)
+  have hE : cexp (2 * Real.pi * I * m * j / (N : ℕ)) = starRingEnd ℂ (omega N ^ (j * m)) := by
+    rw [conj_omega_pow]; congr 1; push_cast; ring
+  rw [prodRow_getD _ _ _ _ _ _ hs, shiftEntry_of_real x P k _ hk0 hkP hs hx,
+    gaussEntry_real P k _ hnd hk0 hs, signedIdx_negMod_sq P m hnd hm', conj_omega_pow_negMod N j m hm',
+    ← negMod_add N m k hm' (by omega) (by omega),
+    ← dftC_conj_of_real_mod x N _ (Nat.mod_lt _ (by omega)) hx,
+    map_mul, map_mul, Complex.conj_ofReal, hE, Complex.conj_conj]
+
 /-! ## C15.d -/
 
 /-- **C15.d** Fourier marginal: summing row `r` over time gives the conjugate Fourier coefficient of
@@ -122,29 +161,48 @@ theorem marginal (x : List ℂ) (h : 2 ≤ x.length) :
           = starRingEnd ℂ ((dft twC x (2 * (x.length / 2))).getD (x.length / 2 - r) 0) := by
   refine ⟨_, transform_eq twC Real.exp Real.pi x h, ?_⟩
   intro r hr
-  have hN : 2 * (x.length / 2) ≠ 0 := by omega
-  have hNc : ((2 * (x.length / 2) : ℕ) : ℂ) ≠ 0 := by exact_mod_cast hN
   rw [getD_map_range _ _ _ hr]
-  set P := prodRow Real.exp Real.pi (dft twC x (2 * (x.length / 2))) (x.length / 2) (x.length / 2 - r)
-    with hP
-  have h1 : ∀ j ∈ range (2 * (x.length / 2)), (idft twC P (2 * (x.length / 2))).getD j 0
-      = (∑ m ∈ range (2 * (x.length / 2)), P.getD m 0 * starRingEnd ℂ (omega (2 * (x.length / 2)) ^ (j * m)))
-        / (2 * (x.length / 2) : ℕ) := fun j hj => idftC_getD P _ j (Finset.mem_range.mp hj)
-  rw [Finset.sum_congr rfl h1, ← Finset.sum_div, Finset.sum_comm]
-  have h2 : ∀ m ∈ range (2 * (x.length / 2)),
-      ∑ j ∈ range (2 * (x.length / 2)), P.getD m 0 * starRingEnd ℂ (omega (2 * (x.length / 2)) ^ (j * m))
-        = if m = 0 then P.getD 0 0 * (2 * (x.length / 2) : ℕ) else 0 := by
-    intro m hm
-    rw [← Finset.mul_sum, sum_conj_omega_pow _ m hN (Finset.mem_range.mp hm)]
-    split
-    · subst ‹m = 0›; rfl
-    · simp
-  rw [Finset.sum_congr rfl h2, Finset.sum_ite_eq' (range (2 * (x.length / 2))) 0]
-  simp only [Finset.mem_range, Nat.pos_of_ne_zero hN, if_true]
-  rw [mul_div_assoc, div_self hNc, mul_one, hP, prodRow_getD _ _ _ _ _ _ (Nat.pos_of_ne_zero hN),
-    gaussEntry_zero]
-  simp [shiftEntry]
+  exact row_marginal x h r hr
 
 example : (2 : ℕ) ≤ ([1, -2, 3, 5, 4] : List ℂ).length := by decide
+
+/-! ## C15.e -/
+
+/-- **C15.e** (stretch, proved) exact inverse: for a REAL record, `itransform(transform(x))` has `N` samples and
+`itransform(transform(x))[j] = x_j − (Σ_l x_l)/N − (−1)^j·(Σ_l (−1)^l x_l)/N` — the record (truncated to
+`N = 2⌊n/2⌋` samples) minus its mean and Nyquist components (C15.d + DFT inversion; the real part taken by
+the code is written `.re`; the expression is real for a real record). -/
+theorem inverse (x : List ℂ) (h : 2 ≤ x.length)
+    (hx : ∀ j, starRingEnd ℂ (x.getD j 0) = x.getD j 0) :
+    ∃ S y, transform twC Real.exp Real.pi x = .ok S ∧ itransform twC S = .ok y ∧
+      y.length = 2 * (x.length / 2) ∧
+      ∀ j, j < 2 * (x.length / 2) → y.getD j 0 =
+        (x.getD j 0 - (∑ l ∈ range (2 * (x.length / 2)), x.getD l 0) / (2 * (x.length / 2) : ℕ)
+          - (-1) ^ j * (∑ l ∈ range (2 * (x.length / 2)), (-1) ^ l * x.getD l 0)
+            / (2 * (x.length / 2) : ℕ)).re := by
+  have hP : 1 ≤ x.length / 2 := by omega
+  set S := (List.range (x.length / 2)).map (fun r =>
+      idft twC (prodRow Real.exp Real.pi (dft twC x (2 * (x.length / 2))) (x.length / 2)
+        (x.length / 2 - r)) (2 * (x.length / 2))) with hS
+  have hss : (S.map sumL).length = x.length / 2 := by simp [hS]
+  have hss0 : (S.map sumL).length ≠ 0 := by omega
+  set a : List ℂ := [0] ++ ((S.map sumL).tail.map (CxLike.conj : ℂ → ℂ)).reverse ++ [0]
+    ++ (S.map sumL).tail with ha
+  refine ⟨S, ((idft twC a (2 * (x.length / 2))).take (2 * (x.length / 2))).map (CxLike.re : ℂ → ℝ),
+    transform_eq twC Real.exp Real.pi x h, ?_, ?_, ?_⟩
+  · unfold itransform
+    have hP0 : x.length / 2 ≠ 0 := by omega
+    simp only [hss, hP0, if_false]
+    rfl
+  · simp
+  · intro j hj
+    rw [List.take_of_length_le (by simp), List.getD_eq_getElem?_getD, List.getElem?_map,
+      List.getElem?_eq_getElem (by simpa using hj)]
+    simp only [Option.map_some, Option.getD_some, cxlike_re]
+    rw [getElem_eq_getD]
+    congr 1
+    refine idft_zeroed x a (x.length / 2) hP (fun k hk => ?_) j hj
+    exact assembled_rowSums_getD x (S.map sumL) (x.length / 2) hP hss
+      (fun r hr => rowSums_getD x h r hr) hx k hk
 
 end EqsigVerif.Props.C15
